@@ -865,7 +865,13 @@ func buildTS(r *rng, c ttCase, o ttTSOpts) []byte {
 				subUnit(textPacket(r, c.sched.mag, 6, "SECOND TELETEXT PID"))}}
 			mx.WriteData(&astits.MuxerData{PID: o.pid + 1, PES: pesData(0xbd, q.pts, q.payload(0x10))})
 		}
-		mx.WriteData(&astits.MuxerData{PID: o.pid, PES: pesData(0xbd, p.pts, p.payload(0x10))})
+		md := &astits.MuxerData{PID: o.pid, PES: pesData(0xbd, p.pts, p.payload(0x10))}
+		if !o.video && r.chance(1, 3) {
+			// the teletext PID is the programme's PCR PID here: some of its PES packets start in a TS packet whose
+			// adaptation field carries a PCR (another time base than the PTS: cue times must come from the PTS)
+			md.AdaptationField = &astits.PacketAdaptationField{HasPCR: true, PCR: &astits.ClockReference{Base: p.pts + 63000 + int64(r.intn(90000))}}
+		}
+		mx.WriteData(md)
 	}
 	return buf.Bytes()
 }
